@@ -1,0 +1,19 @@
+//go:build verif
+
+package pop3
+
+import "net"
+
+// VerifServe runs one POP3 session on conn and returns when the session has ended.
+func (s *Server) VerifServe(id int, conn net.Conn) {
+	s.wg.Add(1)
+	s.startSession(id, conn)
+}
+
+// VerifAddr returns the address the server is listening on, nil if it is not.
+func (s *Server) VerifAddr() net.Addr {
+	if s.listener == nil {
+		return nil
+	}
+	return s.listener.Addr()
+}
